@@ -103,6 +103,9 @@ class LLDPSender (object):
     self._set_timer()
 
   def _handle_openflow_ConnectionDown (self, event):
+    if core.openflow.getConnection(event.dpid) not in (None, event.connection):
+      # The switch has reconnected already; this is about its old connection
+      return
     self.del_switch(event.dpid)
 
   def del_switch (self, dpid, set_timer = True):
